@@ -738,6 +738,38 @@ def rule_init(ctx, R):
 RULES.append(("C01.INIT", "the initial state: empty stacks, command log and label table; stack 3 selected; no pending jump source", rule_init))
 
 
+def collects_all(b, fb, src, elems):
+    """None when the body returns a vector holding one element (one of `elems`, as roles) per item of the iterated
+    `src` (a role): a single loop over src with exactly one push that no iteration can bypass, or a collect()
+    of a map over src.  Otherwise the reason."""
+    cfg = normal_cfg(b)
+    roles = Roles(b, fb, param_roles={i: "P%d" % i for i in range(1, b.argc + 1)})
+    rets = sorted({roles.of_origin(roles.org.of_place({"l": 0, "proj": []}, r_, "t")) for r_ in cfg.returns})
+    bes = cfg.back_edges()
+    if not bes:
+        ok = len(rets) == 1 and rets[0].startswith("Iterator::collect(") and src in rets[0]
+        return None if ok else "no loop and not a collect over %s: %s" % (src, rets)
+    if len({h for _, h in bes}) != 1:
+        return "more than one loop"
+    head = bes[0][1]
+    loop = set().union(*[cfg.natural_loop(be) for be in bes])
+    its = [roles.of_operand(t["args"][0], bi) for bi, t in b.calls() if callee_name(t["f"], fb) == "core::iter::traits::collect::IntoIterator::into_iter"]
+    if its != [src]:
+        return "the loop iterates %s, not %s" % (its, src)
+    pushes = [(bi, roles.of_operand(t["args"][0], bi), roles.of_operand(t["args"][1], bi)) for bi, t in b.calls() if callee_name(t["f"], fb) == "std::vec::Vec::push"]
+    if len(pushes) != 1 or pushes[0][0] not in loop or pushes[0][2] not in elems:
+        return "expected one push of %s inside the loop, found %s" % (elems, [p[2] for p in pushes])
+    # the element edge of the loop: successor of the discriminant switch that stays in the loop
+    sw = [bi for bi in loop if b.blocks[bi]["term"]["k"] == "switch"]
+    stay = [sx for bi in sw for sx in cfg.succ[bi] if sx in loop]
+    outside = [x for x in range(len(b.blocks)) if x not in loop]
+    if reaches_without(cfg, stay, [head], cut_blocks=[pushes[0][0]] + outside):
+        return "an iteration can reach the next one without the push"
+    if len(rets) != 1 or not (rets[0].startswith("Vec::with_capacity(") or rets[0] == "Vec::new()" or rets[0] == "VEC"):
+        return "returns %s" % rets
+    return None
+
+
 def rule_stateapi(ctx, R):
     """the small accessors both state representations implement: each reads or writes exactly the field it is named
     after (a label is stored at the location it was given, the jump source is overwritten by every jump, the
@@ -766,6 +798,20 @@ def rule_stateapi(ctx, R):
         except RuntimeError:
             ws_ = []
         R.check(len(ws_) == 1 and ws_[0][-1] == "RET(Iterator::collect(Range::Range{K0,Vec::len(P1.stack)}))", "stateapi:OptState:get_all_stack_index", "the stack indices of the vector-backed state are 0 .. number of stacks (all of them): %s" % [w[-1] for w in ws_], b_.span)
+    # the accessors that hand out everything there is: one unconditional push per element of the map (or a collect)
+    ALL = {
+        ("UnOptState", "get_all_stack_index"): ("HashMap::keys(P1.stack)", ("ELEM<HashMap::keys(P1.stack)>",)),
+        ("UnOptState", "get_all_point"): ("P1.point", ("tuple{ELEM<P1.point>.0,ELEM<P1.point>.1}",)),
+        ("OptState", "get_all_point"): ("P1.point", ("tuple{ELEM<P1.point>.0,ELEM<P1.point>.1}",)),
+    }
+    for (impl, meth), (src, elems) in ALL.items():
+        name = "<core::state::%s as hyeong::core::state::State>::%s" % (impl, meth)
+        b = fb.bodies.get(name)
+        if not R.anchor(b is not None, "%s:%s" % (impl, meth), name):
+            continue
+        R.analyse(name)
+        why = collects_all(b, fb, src, elems)
+        R.check(why is None, "stateapi:%s:%s" % (impl, meth), "%s::%s returns every entry of the map, once each%s" % (impl, meth, "" if why is None else ": " + why), b.span)
     n = 0
     for impl in ("UnOptState", "OptState"):
         for meth, accepted in A.items():
